@@ -13,7 +13,7 @@ ASSUMPTIONS = [
 
 
 def run(ck):
-    mb_common.run_mb(ck, {"targets", "queue_full_atomic", "qos", "resub", "unsub", "delivery", "frame", "offline_queue"}, box_clauses={"delivery", "qos"}, conc={"conc_delivery"})
+    mb_common.run_mb(ck, {"targets", "queue_full_atomic", "qos", "resub", "unsub", "delivery", "frame", "offline_queue", "closing_accepted"}, box_clauses={"delivery", "qos"}, conc={"conc_delivery"})
     # the subscriber's connection forwards every dequeued message as exactly one PUBLISH, intact (clause
     # c06_forward_intact of the connection monitor, Props/C06_conn.v), on broker-connection traces
     import _bc
